@@ -229,15 +229,26 @@ def layered(inp):
     method = lopts.pop('method')
     lopts['return_imat'] = True
 
+    # Source as empymod expects it: (x, y, z, azm, elev) or
+    # (x1, x2, y1, y2, z1, z2); a dipole given in the first format has
+    # additionally a length, which has to go into the source moment.
+    src_coo = np.asarray(src.coordinates, dtype=np.float64)
+    strength = src.strength
+    is_dipole = 'Dipole' in src.__class__.__name__
+    if src_coo.shape == (2, 3):
+        src_coo = src_coo.ravel('F')
+    elif src_coo.size == 5 and is_dipole:
+        strength = strength*src.length
+
     # Collect rec-independent empymod options.
     empymod_opts = {
         # User input ({src;rec}pts, {h;f}t, {h;f}targ, xdirect, loop, verb).
         **empymod_opts,
         #
         # Source properties, same for all receivers.
-        'src': src.coordinates,
+        'src': src_coo,
         'msrc': src.xtype != 'electric',
-        'strength': src.strength,
+        'strength': strength,
         #
         # Enforced properties (not implemented).
         'signal': None,
